@@ -36,7 +36,8 @@ inline void account_fixed_script(const vf::Options& o, vf::Tally& tally, const C
       if (tally.excluded.count(f.signature) || o.get("survey", 0) != 0) continue;
       Case small = c;
       int budget = budget_per_signature;
-      for (std::size_t n = 2; small.ops.size() >= 2 && budget > 0;) {
+      const double t_end = vf::now_s() + 40;   // minimisation effort only: the verdict does not depend on it
+      for (std::size_t n = 2; small.ops.size() >= 2 && budget > 0 && vf::now_s() < t_end;) {
          const std::size_t chunk = std::max<std::size_t>(1, small.ops.size() / n);
          bool reduced = false;
          for (std::size_t i = 0; i < small.ops.size() && budget > 0; i += chunk) {
